@@ -21,3 +21,4 @@ import RenetVerif.Props.SrcTieNcToken
 import RenetVerif.Props.SrcTieNcSequence
 import RenetVerif.Props.SrcTieSendUnrel
 import RenetVerif.Props.SrcTieRecvUnrel
+import RenetVerif.Props.SrcTieSendRel
